@@ -9,7 +9,9 @@ Window view of a disk and the executable specification of C07 (and the reading f
 
 `checkRolls` is the simplest reading of the English statement of C07, evaluated on a sequence of
 directory snapshots (one after each roll): slot b+j holds the (j+1)-th most recently rolled
-content, the rolled file is gone, nothing outside the window names is created, modified or removed.
+content (the archives found initially at base, base+1, … up to the first gap count as the most
+recent rolled files of an earlier life), the rolled file is gone, nothing outside the window names
+is created, modified or removed.
 -/
 namespace Log4rs.Roller
 
